@@ -4,7 +4,7 @@ import "verif/hist"
 
 func init() {
 	props["C17"] = &propInfo{Level: "exploration",
-		Rule:   "small closures of every tree kind supply the reachable states; for every (state, operation cycle) pair - each Search, each sequence method, Minimum/Maximum/Size, every overwrite, every Delete of an absent key, every Delete;Insert churn pair - the cycle is pumped 40000 times and live heap (HeapAlloc after two forced collections) compared before/after against a fixed 64 KiB threshold (a per-operation leak of 8 bytes yields 320 KiB); for every state 200 trees are driven there, churned and emptied, retained heap per tree <= 4 KiB (32 KiB collation). additionally a sliding window over an unbounded stream of fresh keys: every (key-group shape, deletion order) pair of 6 shapes (leaf + long-path subtree, two-level, short, fan-out 5/17/49; all permutations for groups of <= 4 keys) pumped for 20000 window steps at bounded size (window of two groups, and window zero: the tree empties after every group); content clause: per tree kind 300 keys with 16 KiB values are inserted and then leave the tree in five ways (three deletion orders, overwrite with a small value, delete/re-insert/delete) and a tree of 2*10^5 keys is emptied in three orders: <= 256 KiB may stay; spread: 1000 keys cut out of short-lived 64 KiB pages are built and then deleted/re-inserted one by one with 30 searches in between (the build keeps the keys, not the pages; the churn does not grow the heap); the number of goroutines is compared across every pumped cycle; evaluations = (state,cycle) and (shape,order) pairs measured, all distinct; exhaustive refers to the set of pairs, the verdict per pair is a measurement",
+		Rule:   "small closures of every tree kind supply the reachable states; for every (state, operation cycle) pair - each Search, each sequence method, Minimum/Maximum/Size, every overwrite, every Delete of an absent key, every Delete;Insert churn pair - the cycle is pumped 40000 times and live heap (HeapAlloc after two forced collections) compared before/after against a fixed 64 KiB threshold (a per-operation leak of 8 bytes yields 320 KiB); for every state 200 trees are driven there, churned and emptied, retained heap per tree <= 4 KiB (32 KiB collation). additionally a sliding window over an unbounded stream of fresh keys: every (key-group shape, deletion order) pair of 6 shapes (leaf + long-path subtree, two-level, short, fan-out 5/17/49; all permutations for groups of <= 4 keys) pumped for 20000 window steps at bounded size (window of two groups, and window zero: the tree empties after every group); content clause: per tree kind 300 keys with 16 KiB values are inserted and then leave the tree in five ways (three deletion orders, overwrite with a small value, delete/re-insert/delete) and a tree of 2*10^5 keys is emptied in three orders: <= 256 KiB may stay; spread: after one 24 KiB absent key has been queried, 1000 keys cut out of short-lived 64 KiB pages (string keys, and byte-slice windows with spare capacity) are built and then deleted/re-inserted one by one with 30 searches in between (the build keeps the keys, not the pages; the churn does not grow the heap); the number of goroutines is compared across every pumped cycle; evaluations = (state,cycle) and (shape,order) pairs measured, all distinct; exhaustive refers to the set of pairs, the verdict per pair is a measurement",
 		Assume: []string{"the verdict per pair is a measurement with a fixed history-independent threshold two orders of magnitude from both behaviours; this is as far as bounded exhaustive exploration reaches for a resource property"},
 		Jobs: func(tier string, seed int) []JobDef {
 			var out []JobDef
